@@ -122,6 +122,12 @@ def history_differs(case, inner, tbonf, tholm, rbonf, rholm, before):
         if (bits(inner.alpha), inner.ndf, bits(inner.threshold)) != before:
             return (f'the first test was modified by a correction: alpha {unbits(before[0])!r} -> '
                     f'{float(inner.alpha)!r}, threshold {unbits(before[2])!r} -> {float(inner.threshold)!r}')
+    import copy
+    for name, test, want in (('Bonferroni', tbonf, sb), ('Holm-Bonferroni', tholm, sh)):
+        if not same(snap(copy.deepcopy(test).evaluate()), want):
+            return f'a deep copy of the {name} test evaluates differently'
+    if not same(snap(copy.deepcopy(rholm)), sh) or not same(snap(copy.copy(rbonf)), sb):
+        return 'a copy of a correction result reads differently'
     return None
 
 
@@ -512,7 +518,7 @@ def gen_cases(ctx):
     extra = dtype_cases(rng, quick)
     ctx.count('non_float64_pvalue_cases', len(extra))
     cases += extra
-    nrand = 350 if quick else 9000
+    nrand = 300 if quick else 9000
     mmax = 40 if quick else 120
     for _ in range(nrand):
         m = rng.choice([1, 2, 3, 4, 5, 6, 8]) if rng.random() < 0.5 else rng.randint(1, mmax)
